@@ -372,6 +372,16 @@ def run_shard(desc, acc):
         if free_dimensions(model) < 2:
             acc.count("skipped_fewer_than_2_free_dimensions")
             continue
+        if rng.random() < 0.3 and len(model.metabolites):
+            # a user's own variable that does not sit at the end of the variable list: a
+            # reaction is added after it (forward / reverse pairs are no longer at 2i, 2i+1)
+            import cobra
+
+            model.add_cons_vars([model.problem.Variable("aux_user_var", lb=0, ub=1)])
+            late = cobra.Reaction("LATE", lower_bound=-3, upper_bound=3)
+            late.add_metabolites({rng.choice(list(model.metabolites)): -1})
+            model.add_reactions([late])
+            acc.count("models_with_a_user_variable_inside_the_variable_list")
         extra = []
         if rng.random() < 0.45:
             for k in range(rng.randint(1, 2)):
